@@ -99,7 +99,8 @@ def plan_options(rng, spec):
 
 
 def plan(rng, idx, tier):
-    spec = rng.weighted([(gmodels.AMR, 5), (gmodels.DEFAULT, 3), (gmodels.custom(idx), 2), (gmodels.NOOP, 1)])
+    spec = rng.weighted([(gmodels.AMR, 5), (gmodels.DEFAULT, 3), (gmodels.custom(idx), 2), (gmodels.NOOP, 1),
+                         (gmodels.OWN_CONCEPT_ROLE, 0.6)])
     ng = rng.weighted([(1, 4), (2, 3), (3, 2), (4, 1)])
     many = idx % 500 == 250
     if many:
